@@ -153,7 +153,8 @@ LABEL_POOL = ["20minutes", "2019", "3D", "example", "EXAMPLE", "Example", "com",
 
 
 def _strategy(tier):
-    host = st.lists(st.sampled_from(LABEL_POOL), min_size=1, max_size=4).map(".".join)
+    # 'localhost' is an ordinary label inside a longer name (localhost.run); alone it is the special host the class leaves undefined
+    host = st.lists(st.sampled_from(LABEL_POOL + ["localhost", "LocalHost"]), min_size=1, max_size=4).map(".".join).map(lambda h: h + ".run" if h.lower() == "localhost" else h)
     pad = st.sampled_from(["", "", "", " ", "\t"])
     return st.tuples(st.lists(st.tuples(pad, host, pad).map("".join), min_size=1, max_size=60 if tier == "thorough" else 25),
                      st.lists(host, min_size=3, max_size=12)).map(
